@@ -54,6 +54,8 @@ type Run struct {
 	events    map[string]int64
 	leg       bool
 	legViol   map[string]*legViol
+	legRule   string
+	legFloor  int
 }
 
 func env(k, d string) string {
@@ -265,6 +267,12 @@ func sortedKeys[V any](m map[string]V) []string {
 // floor is the minimum number of behaviour classes that must have been seen
 // for the run to count as "held" rather than inconclusive.
 func (r *Run) Finish(rule string, floor int) {
+	if r.leg {
+		r.mu.Lock()
+		r.legRule, r.legFloor = rule, floor
+		r.mu.Unlock()
+		r.FinishLeg()
+	}
 	r.mu.Lock()
 	wall := time.Since(r.start).Seconds()
 	nd := int64(len(r.distinct)) + r.distinctN
